@@ -385,9 +385,9 @@ def run_history(case, rec):
 
 
 SUBS = [
-    Sub("elastic_history", run_history, gen=lambda: histories("elastic"), quick=60, thorough=800, shards=8),
-    Sub("thermal_history", run_history, gen=lambda: histories("thermal"), quick=50, thorough=600, shards=6),
-    Sub("shared_model", run_history, gen=lambda: histories("shared"), quick=40, thorough=500, shards=6),
+    Sub("elastic_history", run_history, gen=lambda: histories("elastic"), quick=100, thorough=800, shards=8),
+    Sub("thermal_history", run_history, gen=lambda: histories("thermal"), quick=80, thorough=600, shards=6),
+    Sub("shared_model", run_history, gen=lambda: histories("shared"), quick=60, thorough=500, shards=6),
 ]
 
 
@@ -662,4 +662,4 @@ def run_beam_history(case, rec):
     rec.nontrivial(inval)
 
 
-SUBS.append(Sub("beam_history", run_beam_history, gen=beam_histories, quick=40, thorough=500, shards=6))
+SUBS.append(Sub("beam_history", run_beam_history, gen=beam_histories, quick=60, thorough=500, shards=6))
